@@ -1232,8 +1232,11 @@ def trim_cast_varchar(expression: exp.Expression) -> exp.Expression:
     if isinstance(operand, exp.Cast) and operand.to.this in [exp.DataType.Type.VARCHAR, exp.DataType.Type.TEXT]:
         return expression
 
+    # keep the characters to trim and the side (LTRIM / RTRIM / TRIM(LEADING ...))
+    other_args = {k: v for k, v in expression.args.items() if k != "this"}
     return exp.Trim(
-        this=exp.Cast(this=operand, to=exp.DataType(this=exp.DataType.Type.VARCHAR, nested=False, prefix=False))
+        this=exp.Cast(this=operand, to=exp.DataType(this=exp.DataType.Type.VARCHAR, nested=False, prefix=False)),
+        **other_args,
     )
 
 
